@@ -16,8 +16,19 @@ tracker is constructed (own storage dict / the constructor's default arguments, 
 share), the kind of iterable handed to add_headers (list / tuple / one-shot generator) and the number of change
 listeners registered before the first delivery (one, or two that each replay the ops they are sent on a list of their own).
 
+The batch may also be handed over as a LAZY iterable that queries the tracker while add_headers consumes it (feed =
+"peek": a generator / map / filter / iterator object calling every read-only accessor in turn - length, unlocked_length,
+last_block_hash, hash_for_index, tuple_for_index with positive and negative index, repr, the lookups - before, between
+and after the headers), listeners may query the tracker while they are told the ops or the newly locked items, and
+between valid calls a history may contain calls that cannot succeed: a delivery with an unreadable item in it (["x", ...]:
+a damaged copy of a header whose hash() / previous_block_hash / difficulty raises, or something that is no header) and
+lock_to_index with None, a str, a float or an index beyond the chain (["L", ...]). None of those queries and refused calls
+is judged; what is judged is every valid delivery after them, on that tracker and on every other one of the process.
+
 The mechanism key of a violation is the symptom the monitor saw (chain.nonmax, chain.ops_replay_differs_from_chain, ...),
-nothing else: the input classes a history went through (a locked header delivered again, a lock while chains tied, an
+nothing else - with one exception: once a call was refused PART-WAY (a delivery that had consumed new headers before the
+unreadable item; a lock index beyond the chain) whatever is seen later in that history goes under
+chain.wrong_after_refused_delivery / chain.wrong_after_refused_lock (the symptom is in the witness). The input classes a history went through (a locked header delivered again, a lock while chains tied, an
 orphan's parent arriving mid-path) are listed in the witness's `observed.input_classes` for the reader only.
 """
 import hashlib
@@ -61,7 +72,18 @@ RULE = ("histories = headers (hash, parent, weight>0) + events (batches handed t
         "by first-delivery position, delivery order, batch sizes, locks, weights when not all 1) - labelings of the same "
         "history are NOT counted as distinct - and non-trivial when it contains a fork or an orphan (a header delivered "
         "before its parent or whose parent never arrives); plain in-order chains are counted under history.plain. In the "
-        "thorough N=5 sweep only every 8th history is entered in the distinct set (memory), so that count is a lower bound.")
+        "thorough N=5 sweep only every 8th history is entered in the distinct set (memory), so that count is a lower bound. "
+        "Queries at moments the statement is silent about: batch form 'peek' (one exhaustive labeling, a fifth of the sampled "
+        "histories) hands the batch over as generator / map / filter / iterator object that calls one read-only accessor of "
+        "the tracker (rotating over length, last_block_hash, hash_for_index(-1), repr, unlocked_length, tuple_for_index(0), "
+        "locked_length+is_hash_known+index_for_hash+block_for_hash, hash_for_index(length-1), tuple_for_index(-1)) before every "
+        "header and after the last / only after the last / only between headers; change listeners and the did_lock_to_index_f "
+        "listener do the same while they are called (two exhaustive labelings, a third of the sampled histories). Calls that "
+        "cannot succeed: 6% of the exhaustive histories and a fifth of the sampled ones (twins and duels included) first hand "
+        "a batch over with an unreadable item (damaged header copy whose hash()/previous_block_hash/difficulty raises - "
+        "reporting the hash of a delivered, not yet delivered or never delivered header -, None, an int, 80 raw bytes, a "
+        "(hash, parent) pair, a str) at the front, the end or in between, then repeat it without that item, and call "
+        "lock_to_index(None | str | locked length + 1.5 | length+1,2,5) between valid calls.")
 ASSUMPTIONS = [
     "vmon/refs/chain.py (max-weight chain by definition; DP cross-checked against brute-force path enumeration on every "
     "run) is correct",
@@ -74,19 +96,29 @@ ASSUMPTIONS = [
     "away, index = its position, header = the tip); tuple_for_index(i) is (hash, parent hash, weight); an index is "
     "anything that compares equal to the position",
     "two hash values denote the same header when they compare equal (==); nothing may depend on their being the same "
-    "object. The iterable given to add_headers is consumed once; after the call the caller may empty the list it passed "
-    "and the list of ops it got back",
+    "object. The iterable given to add_headers is consumed once; a list handed over holds the same objects in the same order "
+    "after the call, and the caller may then empty it and the list of ops it got back",
     "block representation: the header's weight is its 32-bit difficulty field as parsed; its hash is the double-SHA256 of "
     "the 80 header bytes (the harness stops as inconclusive if pycoin's Block disagrees with hashlib on that)",
     "lock_to_index(k) is only called with 0 <= k <= length(); the locked prefix is the first k entries of the chain "
     "reported (and judged correct) after the preceding delivery; after a lock the admissible chains are those that start "
     "with the locked prefix",
     "the statement speaks about the state after each delivery; nothing is judged between a lock and the next delivery",
+    "reading the tracker (length, unlocked_length, locked_length, last_block_hash, hash_for_index, tuple_for_index, "
+    "index_for_hash, is_hash_known, block_for_hash, repr) is free of effect whenever it happens: while the iterable given to "
+    "add_headers is being consumed, inside a change listener or the did_lock_to_index_f listener, after a refused call. What "
+    "such a query returns or raises at those moments is not judged",
+    "a delivery containing an item that cannot be read may be refused (any exception) or tolerated; either way the headers "
+    "of that batch count as delivered only once a valid delivery has handed them over, and until then no delivery is "
+    "judged (the harness repeats the batch without the bad item at once). lock_to_index with None, a str, a non-integral "
+    "float or an int beyond length() is expected to be refused; a tracker that accepts it ends the history unjudged. After a "
+    "refused call the next valid delivery must satisfy the statement as if the refused call had not been made",
 ]
 EXPLANATION = ("after each add_headers: chain parent-linked from the anchor through delivered headers, starts with the locked "
                "prefix, has the oracle's maximum weight, index_for_hash/hash_for_index/tuple_for_index/last_block_hash agree "
                "with it, returned ops and callback ops replayed from an empty list equal it. The first violating step ends a "
-               "history (later steps run on corrupted state).")
+               "history (later steps run on corrupted state). Queries made while a batch is consumed or a listener runs, and "
+               "calls that are refused, are not judged themselves: the deliveries after them are.")
 TIMEOUT = {"quick": 900, "thorough": 3 * 3600}
 
 ZERO = b"\0" * 32
@@ -105,8 +137,8 @@ def configurations(tier):
 def _label_configs(tier):
     # (labeling, never-delivered parents shared or one per header, weights, PYTHONHASHSEED, representation, ctor, feed)
     cfg = [("asc", "shared", "unit", 0, "shared", "default", "list"),
-           ("bigdesc", "shared", "unit", 0, "fresh", "own", "gen"),
-           ("scat", "distinct", "mixed", 0, "fresh", "own", "list"),
+           ("bigdesc", "shared", "unit", 0, "fresh", "own", "peek+listeners-query"),
+           ("scat", "distinct", "mixed", 0, "fresh", "own", "list+listeners-query"),
            ("block", "distinct", "unit", 0, "block", "own", "tuple"),
            ("bytes", "shared", "pow", 1, "fresh", "own", "list")]
     if tier != "quick":
@@ -120,8 +152,11 @@ def _label_configs(tier):
 
 def _exh_shard(c, **kw):
     sch, unk, wm, hs, rp, ctor, feed = c
-    d = {"kind": "exh", "scheme": sch, "unk": unk, "weights": wm, "mode": {"rep": rp, "ctor": ctor, "feed": feed},
-         "env": {"PYTHONHASHSEED": hs}}
+    feed, _, flags = feed.partition("+")
+    mode = {"rep": rp, "ctor": ctor, "feed": feed}
+    if flags:
+        mode.update(cbq=True, lockcb=True)
+    d = {"kind": "exh", "scheme": sch, "unk": unk, "weights": wm, "mode": mode, "env": {"PYTHONHASHSEED": hs}}
     d.update(kw)
     return d
 
@@ -288,16 +323,17 @@ def make_objs(rep, hdrs, raws=None):
     return [make_obj(rep, h, raws[i] if raws else None) for i, h in enumerate(hdrs)]
 
 
-def _new_chain(BlockChain, anchor, mode=MODE0):
+def _new_chain(BlockChain, anchor, mode=MODE0, lock_listener=None):
     if mode["rep"] == "fresh":
         anchor = fresh(anchor)
     elif mode["rep"] == "block":
         anchor = bytes(bytearray(anchor))
+    kw = {"did_lock_to_index_f": lock_listener} if lock_listener is not None else {}
     if mode["ctor"] == "noargs" and anchor == ZERO:
-        return BlockChain()
+        return BlockChain(**kw)
     if mode["ctor"] in ("default", "noargs"):
-        return BlockChain(anchor)
-    return BlockChain(anchor, unlocked_block_storage={})
+        return BlockChain(anchor, **kw)
+    return BlockChain(anchor, unlocked_block_storage={}, **kw)
 
 
 def _feed(batch, how):
@@ -306,6 +342,73 @@ def _feed(batch, how):
     if how == "tuple":
         return tuple(batch)
     return batch
+
+
+class Unreadable(Exception):
+    """raised by the harness's own broken header objects"""
+
+
+BAD_HEADERS = ("hash_raises", "parent_raises", "difficulty_raises")
+BAD_ITEMS = ("none", "int", "raw80", "pair", "str")
+BAD_KINDS = BAD_HEADERS + BAD_ITEMS
+BAD_LOCKS = ("none", "str", "float", "beyond")
+
+
+class BadHdr(object):
+    """A damaged copy of a header: one of its three fields cannot be read. The fields that can be read are the
+    original's (a hash always carries the same parent and weight)."""
+    __slots__ = ("_kind", "_h", "_p", "_w")
+
+    def __init__(self, kind, h, parent, weight):
+        self._kind, self._h, self._p, self._w = kind, h, parent, weight
+
+    def hash(self):
+        if self._kind == "hash_raises":
+            raise Unreadable("hash")
+        return fresh(self._h)
+
+    @property
+    def previous_block_hash(self):
+        if self._kind == "parent_raises":
+            raise Unreadable("previous_block_hash")
+        return fresh(self._p)
+
+    @property
+    def difficulty(self):
+        if self._kind == "difficulty_raises":
+            raise Unreadable("difficulty")
+        return self._w
+
+    def __repr__(self):
+        return "BadHdr(%s %r<-%r)" % (self._kind, self._p, self._h)
+
+
+def bad_item(kind, hdr):
+    """the item a refused delivery contains: a damaged copy of hdr = (hash, parent, weight), or not a header at all"""
+    if kind in BAD_HEADERS:
+        return BadHdr(kind, *hdr)
+    return {"none": None, "int": 7, "raw80": b"\x01" + b"\0" * 79, "pair": (hdr[0], hdr[1]), "str": "00" * 32}[kind]
+
+
+class _PeekIter(object):
+    """an iterator object (not a generator) that looks at the tracker every time it is asked for the next item,
+    the last time included"""
+
+    def __init__(self, items, peek):
+        self._it, self._peek = iter(items), peek
+
+    def __iter__(self):
+        return self
+
+    def __next__(self):
+        self._peek()
+        return next(self._it)
+
+
+PEEKS = ("length", "last_block_hash", "hash_for_index_neg", "repr", "unlocked_length", "tuple_for_index", "lookups",
+         "hash_for_index_tip", "tuple_for_index_neg")
+LAZY_FORMS = ("generator", "map", "filter", "iterator")
+_REFUSALS = [0]         # refused calls made in this process so far, on whatever tracker
 
 
 def _ops_plain(ops):
@@ -325,7 +428,7 @@ def _midpath_predicate(hdrs, events):
     known = set()
     parent = {}
     for ev in events:
-        if ev[0] == "l":
+        if ev[0] not in "dq":
             continue
         new = []
         for i in ev[1]:
@@ -351,7 +454,20 @@ class Session(object):
     """One BlockChain under observation."""
 
     def __init__(self, BlockChain, anchor, rec, mode=MODE0):
-        self.bc = _new_chain(BlockChain, anchor, mode)
+        self.pk = mode.get("peek0", 0)      # rotates the accessor a peek uses, the lazy form and where it peeks
+        self.last_h = anchor
+        self.maybe = set()      # headers handed over in a refused delivery and not (yet) in a valid one
+        self.recheck = False    # a refused call happened since the last judged delivery
+        self.taint = None       # "refused_delivery" / "refused_lock": see refuse() and refused_lock()
+        self.dead = False       # an argument that must be refused was accepted: what it did is not defined, the history ends
+        self.refusals_seen = _REFUSALS[0]
+        self._lock_listener = None
+        if mode.get("lockcb"):
+            def lock_listener(_items, _old_length):
+                rec.ev("lock_to_index.listener_queries_tracker")
+                self.peek(2)
+            self._lock_listener = lock_listener
+        self.bc = _new_chain(BlockChain, anchor, mode, self._lock_listener)
         self.mode = mode
         self.anchor = anchor
         self.rec = rec
@@ -368,14 +484,172 @@ class Session(object):
         for _ in range(mode.get("cbs", 1)):
             pend = []
 
-            def callback(_bc, ops, pend=pend):
-                pend.append(list(ops))
+            if mode.get("cbq"):
+                def callback(_bc, ops, pend=pend):
+                    rec.ev("callback.queries_tracker")
+                    self.peek(2)
+                    pend.append(list(ops))
+                    self.peek(1)
+            else:
+                def callback(_bc, ops, pend=pend):
+                    pend.append(list(ops))
             self.cbs.append((pend, []))
             self._callbacks.append(callback)
             self.bc.add_change_callback(callback)
 
+    # --- read-only queries made at moments the statement does not speak about (while a batch is being consumed,
+    # inside a listener, after a refused call): never judged, whatever they return or raise; what is judged is the
+    # state after the delivery, which they must not have influenced
+    def peek(self, n=1):
+        bc, rec = self.bc, self.rec
+        for _ in range(n):
+            name = PEEKS[self.pk % len(PEEKS)]
+            self.pk += 1
+            rec.ev("peek." + name)
+            try:
+                if name == "length":
+                    bc.length()
+                elif name == "last_block_hash":
+                    bc.last_block_hash()
+                elif name == "hash_for_index_neg":
+                    bc.hash_for_index(-1)
+                elif name == "repr":
+                    repr(bc)
+                elif name == "unlocked_length":
+                    bc.unlocked_length()
+                elif name == "tuple_for_index":
+                    bc.tuple_for_index(0)
+                elif name == "lookups":
+                    h = self.last_h
+                    bc.locked_length()
+                    bc.is_hash_known(h)
+                    bc.index_for_hash(h)
+                    bc.block_for_hash(h)
+                elif name == "hash_for_index_tip":
+                    bc.hash_for_index(bc.length() - 1)
+                else:
+                    bc.tuple_for_index(-1)
+            except Exception:
+                rec.ev("peek.raised")
+
+    def _lazy(self, batch):
+        """the batch as a lazily consumed iterable that queries the tracker while add_headers consumes it"""
+        rec = self.rec
+        v = self.pk
+        self.pk += 1
+        form = LAZY_FORMS[v % 4]
+        where = (v // 4) % 3        # generator: 0 before every header and after the last, 1 after the last only, 2 between headers only
+        rec.ev("add_headers.lazy_iterable_queries_tracker")
+        rec.ev("add_headers.lazy." + form)
+        peek = self.peek
+        if form == "map":
+            return map(lambda x: (peek(), x)[1], batch)
+        if form == "filter":
+            return filter(lambda x: (peek(), True)[1], batch)
+        if form == "iterator":
+            return _PeekIter(batch, peek)
+
+        def gen():
+            first = True
+            for x in batch:
+                if where == 0 or (where == 2 and not first):
+                    peek()
+                first = False
+                yield x
+            if where != 2:
+                rec.ev("peek.after_last_header")
+                peek()
+        return gen()
+
+    def _give(self, batch):
+        how = self.mode["feed"]
+        if how == "peek":
+            return self._lazy(batch)
+        return _feed(batch, how)
+
+    def _tainted(self, bad):
+        """The mechanism key of a violation seen after a call that was refused PART-WAY (a delivery that had consumed new
+        headers before the item it could not read; a lock index beyond the chain): one key per kind of refusal, the
+        symptom goes into the witness. Everything else keeps the symptom as its key."""
+        if bad and self.taint:
+            return ("chain.wrong_after_" + self.taint, {"symptom_seen": bad[0], "seen": bad[1]}, bad[2])
+        return bad
+
+    def refuse(self, batch, metas, pos, kind, imp):
+        """A delivery that cannot succeed: `batch` with an unreadable item (damaged copy of header `imp` / not a header)
+        inserted at `pos`. Nothing is judged here; the headers of the batch count as delivered only once a valid
+        delivery has handed them over (until then deliveries are not judged: self.maybe)."""
+        if self.dead:
+            return None
+        rec = self.rec
+        rec.ev("add_headers.with_unreadable_item")
+        rec.ev("add_headers.with_unreadable_item." + kind)
+        new_before = [m[0] for m in metas[:pos] if m[0] not in self.delivered]
+        items = list(batch)
+        items.insert(pos, bad_item(kind, imp))
+        _REFUSALS[0] += 1
+        self.refusals_seen = _REFUSALS[0]
+        self.maybe.update(m[0] for m in metas if m[0] not in self.delivered)
+        self.recheck = True
+        st, ops = observe(self.bc.add_headers, self._give(items))
+        if st == "ok":
+            # tolerated instead of refused: the ops it returned belong to the sequence
+            rec.ev("add_headers.unreadable_item_tolerated")
+            bad = self._replay(ops, "(not read)")
+            if bad:
+                return self._tainted(bad)
+        else:
+            rec.ev("add_headers.refused_part_way" if pos else "add_headers.refused_at_first_item")
+            if new_before:
+                rec.ev("add_headers.refused_after_new_headers")
+                if self.taint is None:
+                    self.taint = "refused_delivery"
+                self.context.add("a delivery was refused after it had consumed headers not delivered before")
+        self.peek(1 + self.pk % 2)
+        return None
+
+    def refused_lock(self, what, beyond=1):
+        """lock_to_index with an argument that is no index of the chain: None, a str, a float, an int beyond the length"""
+        if self.dead:
+            return None
+        rec = self.rec
+        if what == "none":
+            k = None
+        elif what == "str":
+            k = str(len(self.locked) + 1)
+        elif what == "float":
+            k = len(self.locked) + 1.5
+        else:
+            st, n = observe(self.bc.length)
+            if st != "ok":
+                return self._tainted(("chain.length_raises", n, "an int"))
+            k = n + beyond
+        rec.ev("lock_to_index.bad_argument." + what)
+        _REFUSALS[0] += 1
+        self.refusals_seen = _REFUSALS[0]
+        st, r = observe(self.bc.lock_to_index, k)
+        if st == "ok":
+            rec.ev("lock_to_index.bad_argument_accepted")
+            self.dead = True
+            return None
+        rec.ev("lock_to_index.refused")
+        self.recheck = True
+        if what == "beyond" and self.taint is None:
+            self.taint = "refused_lock"
+            self.context.add("lock_to_index was refused for an index beyond the chain")
+        self.peek(1)
+        return None
+
     def lock(self, k):
+        return self._tainted(self._lock(k))
+
+    def deliver(self, batch, metas, quiet=False):
+        return self._tainted(self._deliver(batch, metas, quiet))
+
+    def _lock(self, k):
         """-> None or (mech, observed, expected)"""
+        if self.dead:
+            return None
         self.rec.ev("lock_to_index")
         if self.stale:          # (only reachable in minimised histories) look at the chain that is about to be locked
             self.chain = [self.bc.hash_for_index(i) for i in range(self.bc.length())]
@@ -423,9 +697,11 @@ class Session(object):
                 return ("chain.callback_ops_replay_differs_from_chain", {"replayed": replayed, "chain": chain, "listener": ci}, chain)
         return None
 
-    def deliver(self, batch, metas, quiet=False):
+    def _deliver(self, batch, metas, quiet=False):
         """batch: list of header objects, metas: their (hash, parent, weight). -> None or (mech, observed, expected).
         quiet: nothing is read back after this delivery (its ops are still replayed): the next full delivery judges."""
+        if self.dead:
+            return None
         rec = self.rec
         bc = self.bc
         delivered = self.delivered
@@ -436,6 +712,15 @@ class Session(object):
             elif h in lockset:
                 rec.ev("add_headers.redelivers_locked_header")
                 self.context.add("a header of the locked prefix was delivered again")
+        if metas:
+            self.last_h = metas[-1][0]
+        if self.maybe:
+            self.maybe.difference_update(delivered)
+            if self.maybe:      # whether the refused delivery's headers count is open: nothing to judge against
+                rec.ev("add_headers.unjudged_refused_headers_pending")
+                quiet = True
+        if self.recheck and not self.maybe:
+            quiet = False       # the first valid delivery after a refused call is always read back
         rec.ev("add_headers")
         if not metas:
             rec.ev("add_headers.empty_batch")
@@ -443,11 +728,15 @@ class Session(object):
             rec.ev("add_headers.after_lock")
         rec.ev("add_headers.%s.%s" % (self.mode["rep"], self.mode["feed"]))
         fresh_q = self.mode["rep"] != "shared"
-        given = _feed(batch, self.mode["feed"])
+        given = self._give(batch)
+        snap = list(batch) if given is batch else None
         st, ops = observe(bc.add_headers, given)
         if st != "ok":
             return ("chain.add_headers_raises", ops, "a list of ops")
         if given is batch:
+            rec.ev("add_headers.callers_list_compared")
+            if len(batch) != len(snap) or any(a is not b for a, b in zip(batch, snap)):
+                return ("chain.add_headers_modifies_callers_list", {"before": len(snap), "after": len(batch)}, "the list as it was")
             del batch[:]                 # the caller's list is the caller's
         if quiet:
             rec.ev("add_headers.not_read_back")
@@ -457,6 +746,12 @@ class Session(object):
                 del ops[:]
             return bad
         self.stale = False
+        if self.recheck:
+            self.recheck = False
+            rec.ev("delivery.judged_after_refused_call")
+        if _REFUSALS[0] > self.refusals_seen:
+            self.refusals_seen = _REFUSALS[0]
+            rec.ev("delivery.judged_after_refused_call_on_another_tracker")
         # --- read the reported chain back
         rec.ev("length")
         st, n = observe(bc.length)
@@ -531,9 +826,33 @@ def observed_of(bad, hdrs, events, sess, **extra):
     return d
 
 
+def _plain_event(e):
+    """events: ["d"|"q", [header indices]] a delivery (q: not read back), ["l", k] lock_to_index(k),
+    ["x", [header indices], pos, kind, imp] a delivery with an unreadable item of that kind (damaged copy of header imp)
+    inserted at pos, ["L", what, beyond] lock_to_index with a bad argument"""
+    if e[0] in "dqx":
+        return [e[0], list(e[1])] + list(e[2:])
+    return list(e)
+
+
+def _do_event(sess, ev, hdrs, raws, batch=None):
+    """perform one event on a session -> None or the failure tuple"""
+    rp = sess.mode["rep"]
+    if ev[0] == "l":
+        return sess.lock(ev[1])
+    if ev[0] == "L":
+        return sess.refused_lock(ev[1], ev[2] if len(ev) > 2 else 1)
+    if batch is None:
+        batch = [make_obj(rp, hdrs[i], raws[i] if raws else None) for i in ev[1]]
+    metas = [hdrs[i] for i in ev[1]]
+    if ev[0] == "x":
+        return sess.refuse(batch, metas, min(ev[2], len(batch)), ev[3], hdrs[ev[4] % len(hdrs)])
+    return sess.deliver(batch, metas, quiet=ev[0] == "q")
+
+
 def make_case(anchor, hdrs, events, mode, raws=None):
     case = {"anchor": anchor, "hdrs": [list(h) for h in hdrs],
-            "events": [list(e) if e[0] == "l" else [e[0], list(e[1])] for e in events], "mode": dict(mode)}
+            "events": [_plain_event(e) for e in events], "mode": dict(mode)}
     if mode["rep"] == "block":
         case["raw"] = list(raws)
     return case
@@ -549,8 +868,11 @@ def run_history(BlockChain, anchor, hdrs, events, rec, objs=None, mode=MODE0, ra
     lengths = []
     seen_idx = set()
     for k, ev in enumerate(events):
-        if ev[0] == "l":
-            bad = sess.lock(ev[1])
+        if ev[0] in "lL":
+            bad = _do_event(sess, ev, hdrs, raws)
+            lengths.append(None)
+        elif ev[0] == "x":
+            bad = _do_event(sess, ev, hdrs, raws)
             lengths.append(None)
         else:
             batch = []
@@ -560,7 +882,7 @@ def run_history(BlockChain, anchor, hdrs, events, rec, objs=None, mode=MODE0, ra
                 else:
                     seen_idx.add(i)
                     batch.append(objs[i])
-            bad = sess.deliver(batch, [hdrs[i] for i in ev[1]], quiet=ev[0] == "q")
+            bad = _do_event(sess, ev, hdrs, raws, batch)
             lengths.append(len(sess.chain))
         if bad:
             case = make_case(anchor, hdrs, events[:k + 1], mode, raws)
@@ -577,12 +899,7 @@ def run_twin(BlockChain, anchor, hdrs, events_a, events_b, rec, mode, raws=None)
         for sess, events, name in sides:
             if k >= len(events):
                 continue
-            ev = events[k]
-            if ev[0] == "l":
-                bad = sess.lock(ev[1])
-            else:
-                batch = [make_obj(rp, hdrs[i], raws[i] if raws else None) for i in ev[1]]
-                bad = sess.deliver(batch, [hdrs[i] for i in ev[1]], quiet=ev[0] == "q")
+            bad = _do_event(sess, events[k], hdrs, raws)
             if bad:
                 mine = make_case(anchor, hdrs, events[:k + 1], mode, raws)
                 other = events_b if name == "a" else events_a
@@ -684,8 +1001,11 @@ def history_key(hdrs, events, anchor):
     pos = {}
     order = []
     shape = []
-    for ev in events:
-        if ev[0] != "l":
+    refusals = []
+    for k, ev in enumerate(events):
+        if ev[0] in "xL":
+            refusals.append((k,) + tuple(tuple(x) if isinstance(x, list) else x for x in ev))
+        elif ev[0] != "l":
             for i in ev[1]:
                 h = hdrs[i][0]
                 if h not in pos:
@@ -700,6 +1020,8 @@ def history_key(hdrs, events, anchor):
     wts = tuple({h[0]: h[2] for h in reversed(hdrs)}[h] for h in by_pos)
     if all(w == 1 for w in wts):
         wts = ()
+    if refusals:
+        return parents, tuple(order), tuple(shape), wts, tuple(refusals)
     return parents, tuple(order), tuple(shape), wts
 
 
@@ -761,6 +1083,22 @@ def _with_locks(BlockChain, rec, anchor, hdrs, objs, events, lengths, lock_mode,
             rec.violation(*bad)
 
 
+def _with_refusal(BlockChain, rec, anchor, hdrs, objs, events, lrng, tick, mode, raws=None):
+    """one sampled variant: a batch of the history is first handed over with an unreadable item in it (refused), then
+    as it is; sometimes lock_to_index is called with a bad argument after it"""
+    if lrng.random() > 0.06:
+        return
+    j = lrng.randrange(len(events))
+    ev2 = list(events[:j]) + [tuple(gen_refusal(lrng, list(events[j][1]), len(hdrs)))] + list(events[j:])
+    if lrng.random() < 0.4:
+        ev2.insert(j + 2, tuple(gen_bad_lock(lrng)))
+    rec.ev("history.exhaustive_with_refused_call")
+    _count_case(rec, hdrs, ev2, anchor, tick())
+    bad, _ = run_history(BlockChain, anchor, hdrs, ev2, rec, objs, mode, raws)
+    if bad:
+        rec.violation(*bad)
+
+
 def _split(order, sizes):
     events, k = [], 0
     for s in sizes:
@@ -773,7 +1111,8 @@ def run_exh(spec, rec, BlockChain):
     rng = shard_rng(spec["seed"], PROPERTY, "labels", spec["scheme"] + spec["unk"])
     lrng = shard_rng(spec["seed"], PROPERTY, spec["tier"], spec["shard"], "locks")
     part, parts = spec["part"], spec["parts"]
-    mode = spec.get("mode", MODE0)
+    mode0 = spec.get("mode", MODE0)
+    peeky = mode0["feed"] == "peek" or mode0.get("cbq")
     raws = None
     lock_mode = spec.get("locks", "none")
     every = spec.get("distinct_every", 1)
@@ -783,6 +1122,8 @@ def run_exh(spec, rec, BlockChain):
         counter[0] += 1
         return counter[0] % every == 0
     fcount = 0
+    mode = mode0
+    npk = 4 * 3 * len(PEEKS)
     for n in range(spec.get("nmin", 1), spec["nmax"] + 1):
         anchor, labels, unknown = make_labels(spec["scheme"], spec["unk"], n, rng)
         wts = exh_weights(spec.get("weights", "unit"), n)
@@ -803,12 +1144,16 @@ def run_exh(spec, rec, BlockChain):
                 for sizes in sizes_all:
                     events = _split(order, sizes)
                     rec.ev("history.exhaustive")
+                    if peeky:       # which accessor the first query uses, the lazy form and where it queries rotate
+                        mode = dict(mode0, peek0=(counter[0] * 7) % npk)
                     _count_case(rec, hdrs, events, anchor, tick())
                     bad, lengths = run_history(BlockChain, anchor, hdrs, events, rec, objs, mode, raws)
                     if bad:
                         rec.violation(*bad)
-                    elif lock_mode != "none" and len(events) > 1:
+                        continue
+                    if lock_mode != "none" and len(events) > 1:
                         _with_locks(BlockChain, rec, anchor, hdrs, objs, events, lengths, lock_mode, lrng, tick, mode, raws)
+                    _with_refusal(BlockChain, rec, anchor, hdrs, objs, events, lrng, tick, mode, raws)
                 if n > spec.get("dups", 0):
                     continue
                 # one header delivered twice: every header x every later position x every batching (x locks)
@@ -841,8 +1186,12 @@ def gen_mode(rng):
     else:
         scheme, rp = "block", "block"
     ctor = rng.choice(["own", "own", "default", "noargs"])
-    feed = rng.choice(["list", "list", "gen", "tuple"])
-    return scheme, {"rep": rp, "ctor": ctor, "feed": feed, "cbs": rng.choice([1, 1, 2])}
+    feed = rng.choice(["list", "list", "gen", "tuple", "peek"])
+    mode = {"rep": rp, "ctor": ctor, "feed": feed, "cbs": rng.choice([1, 1, 2])}
+    if feed == "peek" or rng.random() < 0.3:
+        # listeners that look at the tracker while they are told the ops / the locked items
+        mode.update(cbq=rng.random() < 0.5, lockcb=rng.random() < 0.5, peek0=rng.randrange(4 * 3 * len(PEEKS)))
+    return scheme, mode
 
 
 def gen_weight_fn(rng, rp):
@@ -936,16 +1285,41 @@ def gen_batches(rng, n):
     return batches
 
 
+def gen_refusal(rng, b, n):
+    """-> ["x", indices, pos, kind, imp]: the batch b (sometimes reordered, cut or with an already seen header more) with
+    an unreadable item at the front (nothing was consumed before the refusal), at the end or in between"""
+    xb = list(b)
+    r = rng.random()
+    if r < 0.25:
+        rng.shuffle(xb)
+    elif r < 0.4 and len(xb) > 1:
+        xb = xb[:rng.randrange(1, len(xb))]
+    pos = rng.choice([0, 0, len(xb), rng.randrange(len(xb) + 1)])
+    return ["x", xb, pos, rng.choice(BAD_KINDS), rng.choice(b) if b and rng.random() < 0.5 else rng.randrange(n)]
+
+
+def gen_bad_lock(rng):
+    what = rng.choice(BAD_LOCKS)
+    return ["L", what, rng.choice([1, 1, 2, 5])] if what == "beyond" else ["L", what]
+
+
 def _drive(rng, sess, hdrs, raws, batches, lockp, events):
     """Generator: performs one event of the plan per next(); yields None or the failure tuple."""
-    rp = sess.mode["rep"]
     lazy = rng.random() < 0.15          # a client that does not look at the tracker after every delivery
+    refusing = rng.random() < 0.2       # a client some of whose calls cannot succeed; it repeats them without the bad item
     for bi, b in enumerate(batches):
         last = bi == len(batches) - 1
         lock_next = not last and rng.random() < lockp
         quiet = lazy and not last and not lock_next and rng.random() < 0.7
+        if refusing and rng.random() < 0.4:
+            ev = gen_refusal(rng, b, len(hdrs))
+            events.append(ev)
+            yield _do_event(sess, ev, hdrs, raws)
         events.append(["q" if quiet else "d", list(b)])
-        yield sess.deliver([make_obj(rp, hdrs[i], raws[i] if raws else None) for i in b], [hdrs[i] for i in b], quiet=quiet)
+        yield _do_event(sess, events[-1], hdrs, raws)
+        if refusing and rng.random() < (0.3 if lock_next else 0.08) and not sess.stale:
+            events.append(gen_bad_lock(rng))
+            yield _do_event(sess, events[-1], hdrs, raws)
         if lock_next:
             n = len(sess.chain)
             k = rng.choice([n, max(0, n - 1), rng.randrange(0, n + 1), rng.randrange(0, n + 1), 1 if n else 0])
@@ -1038,6 +1412,7 @@ def run_duel(rng, rec, BlockChain, sample=False):
     sess = Session(BlockChain, anchor, rec, mode)
     hdrs, raws, events = [], ([] if rp == "block" else None), []
     weight_of = {}
+    refusing = rng.random() < 0.2
 
     def new(parent, w=None):
         i = len(hdrs)
@@ -1068,6 +1443,11 @@ def run_duel(rng, rec, BlockChain, sample=False):
             j = k + 1
             while j < len(idx) and rng.random() >= cut:
                 j += 1
+            if refusing and rng.random() < 0.3:
+                events.append(gen_refusal(rng, idx[k:j], len(hdrs)))
+                bad = _do_event(sess, events[-1], hdrs, raws)
+                if bad:
+                    return bad
             bad = deliver(idx[k:j])
             if bad:
                 return bad
@@ -1120,8 +1500,11 @@ def run_duel(rng, rec, BlockChain, sample=False):
         else:                                        # lock
             n = len(chain)
             k = rng.choice([n, max(0, n - 1), rng.randrange(0, n + 1), min(n, nl + 1)])
+            if refusing and rng.random() < 0.5:
+                events.append(gen_bad_lock(rng))
+                bad = _do_event(sess, events[-1], hdrs, raws)
             events.append(["l", k])
-            bad = sess.lock(k)
+            bad = bad or sess.lock(k)
         if bad:
             break
     rec.ev("history.duel")
@@ -1162,9 +1545,9 @@ def shrink(BlockChain, case, mech, budget=400):
         cands = []
         for k in range(len(c0["events"])):
             cands.append(dict(c0, events=c0["events"][:k] + c0["events"][k + 1:]))
-        used = sorted({i for e in c0["events"] if e[0] != "l" for i in e[1]})
+        used = sorted({i for e in c0["events"] if e[0] in "dqx" for i in e[1]})
         for i in used:
-            evs = [[e[0], [x for x in e[1] if x != i]] if e[0] != "l" else list(e) for e in c0["events"]]
+            evs = [[e[0], [x for x in e[1] if x != i]] + list(e[2:]) if e[0] in "dqx" else list(e) for e in c0["events"]]
             cands.append(dict(c0, events=evs))
         for c in cands:
             budget -= 1
@@ -1180,10 +1563,12 @@ def shrink(BlockChain, case, mech, budget=400):
                 break
     # drop unused headers
     c0 = cur[1]
-    used = sorted({i for e in c0["events"] if e[0] != "l" for i in e[1]})
+    used = sorted({i for e in c0["events"] if e[0] in "dqx" for i in e[1]} |
+                  {e[4] % len(c0["hdrs"]) for e in c0["events"] if e[0] == "x"})
     ren = {i: k for k, i in enumerate(used)}
     small = dict(c0, hdrs=[c0["hdrs"][i] for i in used],
-                 events=[[e[0], [ren[x] for x in e[1]]] if e[0] != "l" else list(e) for e in c0["events"]])
+                 events=[([e[0], [ren[x] for x in e[1]]] + list(e[2:4]) + [ren[e[4] % len(c0["hdrs"])]] if e[0] == "x" else
+                          [e[0], [ren[x] for x in e[1]]]) if e[0] in "dqx" else list(e) for e in c0["events"]])
     if c0.get("raw"):
         small["raw"] = [c0["raw"][i] for i in used]
     r = _rerun(BlockChain, small)
@@ -1200,9 +1585,23 @@ def run_shard(spec, rec):
                 # reorganisations (ops that remove)
                 "history.with_fork", "history.with_orphan", "history.several_batches", "history.batch_of_several",
                 "delivery.several_chains_tie", "ops_returned.reorganisation")
+    lazy_counters = (["add_headers.lazy_iterable_queries_tracker", "peek.after_last_header"] + ["add_headers.lazy." + f for f in LAZY_FORMS] +
+                     ["peek." + a for a in PEEKS])
+    # calls that cannot succeed, between judged ones (refused before anything was consumed / part-way), and the first judged
+    # delivery after them on the same tracker
+    rec.require("add_headers.refused_part_way", "add_headers.refused_at_first_item", "add_headers.refused_after_new_headers",
+                "lock_to_index.refused", "delivery.judged_after_refused_call")
     if spec["kind"] == "exh":
         m = spec.get("mode", MODE0)
-        rec.require("history.exhaustive", "add_headers.%s.%s" % (m["rep"], m["feed"]))
+        rec.require("history.exhaustive", "add_headers.%s.%s" % (m["rep"], m["feed"]), "history.exhaustive_with_refused_call")
+        if m["feed"] == "peek":
+            rec.require(*lazy_counters)
+        if m["feed"] == "list":
+            rec.require("add_headers.callers_list_compared")
+        if m.get("cbq"):
+            rec.require("callback.queries_tracker")
+            if spec.get("locks", "none") != "none":
+                rec.require("lock_to_index.listener_queries_tracker")
         if spec.get("locks", "none") != "none":
             rec.require("lock_to_index", "history.exhaustive_with_lock", "history.with_lock", "add_headers.after_lock")
         if spec.get("dups", 0) >= spec.get("nmin", 1):
@@ -1216,14 +1615,17 @@ def run_shard(spec, rec):
                     "add_headers.not_read_back", "add_headers.empty_batch", "add_headers.after_lock",
                     "add_headers.redelivers_locked_header", "lock_to_index.while_chains_tie",
                     "history.with_duplicate", "history.with_lock", "history.with_several_locks",
-                    "ops_callback.second_listener")
+                    "ops_callback.second_listener", "add_headers.callers_list_compared", "callback.queries_tracker", "lock_to_index.listener_queries_tracker",
+                    "add_headers.fresh.peek", "add_headers.block.peek", "delivery.judged_after_refused_call_on_another_tracker",
+                    *(lazy_counters + ["add_headers.with_unreadable_item." + k for k in BAD_KINDS] +
+                      ["lock_to_index.bad_argument." + k for k in BAD_LOCKS]))
         run_rand(spec, rec, BlockChain)
 
 
 def replay_case(case, rec):
     BlockChain = _imports()
     hdrs = [tuple(h) for h in case["hdrs"]]
-    norm = lambda evs: [tuple(e) if e[0] == "l" else (e[0], list(e[1])) for e in evs]
+    norm = lambda evs: [tuple(e) if e[0] in "lL" else (e[0], list(e[1])) + tuple(e[2:]) for e in evs]
     events = norm(case["events"])
     mode = _case_mode(case)
     rec.case(history_key(hdrs, events, case["anchor"]))
@@ -1247,14 +1649,17 @@ class _ModelChain(object):
     def __init__(self, anchor, unlocked_block_storage=None, broken=None):
         self.anchor, self.broken = anchor, broken
         self.d, self.objs, self.chain, self.nlocked, self.cbs = {}, {}, [], 0, []
+        self.seen, self.was_read = set(), False
 
     def add_change_callback(self, f):
         self.cbs.append(f)
 
     def length(self):
+        self.was_read = True
         return len(self.chain)
 
     def tuple_for_index(self, i):
+        self.was_read = True
         h = self.chain[i]
         return (h, self.chain[i - 1] if i else self.anchor, self.d[h][1])
 
@@ -1278,9 +1683,22 @@ class _ModelChain(object):
         self.nlocked = max(self.nlocked, k)
 
     def add_headers(self, batch):
+        self.was_read = False
+        if self.broken == "leak_on_refusal":
+            # notes a hash as known while it reads the batch, registers the headers once the whole batch has been read
+            new = []
+            for hd in batch:
+                if hd.hash() not in self.seen:
+                    self.seen.add(hd.hash())
+                    new.append(hd)
+            batch = new
         for hd in batch:
             self.d.setdefault(hd.hash(), (hd.previous_block_hash, hd.difficulty))
             self.objs.setdefault(hd.hash(), hd)
+        if self.broken == "stale_when_read_while_consuming" and self.was_read:
+            for f in self.cbs:      # a query made while the batch was consumed refilled its memo: nothing seems to have changed
+                f(self, [])
+            return []
         locked = self.chain[:self.nlocked]
         best = self.chain
         bw = RC.chain_weight(best, self.d)
@@ -1364,6 +1782,38 @@ def _selftest_monitor():
             else:
                 assert expect in mechs, ("monitor misses identity comparison", rp, scheme, mechs)
             out["%s/%s/%s" % (broken, rp, scheme)] = {"histories": runs, "mechanisms": mechs}
+    # a tracker whose memo is refilled by a query made while it consumes the batch: invisible with lists and silent
+    # generators, seen when the iterable looks at the tracker; a tracker that keeps half of a refused delivery: invisible
+    # when the refusal comes before anything was consumed, seen (under the key of that input class) when it comes later;
+    # the correct model registers what it read before the refusal and reports it at the next delivery - also fine
+    for broken, feed, expect in ((None, "peek", None), ("stale_when_read_while_consuming", "gen", None),
+                                 ("stale_when_read_while_consuming", "peek", "chain.nonmax"),
+                                 (None, "refuse", None), ("leak_on_refusal", "refuse0", None),
+                                 ("leak_on_refusal", "refuse", "chain.wrong_after_refused_delivery")):
+        factory = lambda anchor, unlocked_block_storage=None, b=broken: _ModelChain(anchor, broken=b)
+        mechs, runs = {}, 0
+        anchor, labels, unknown = make_labels("asc", "shared", 3, rng)
+        for pf in RC.parent_functions(3):
+            hdrs = [(labels[i], anchor if pf[i] == RC.ANCHOR else unknown[i] if pf[i] == RC.UNKNOWN else labels[pf[i]], 1)
+                    for i in range(3)]
+            for order in itertools.permutations(range(3)):
+                if feed.startswith("refuse"):
+                    kind = BAD_KINDS[runs % len(BAD_KINDS)]
+                    pos = 0 if feed == "refuse0" else 1 + runs % 2
+                    if pos == 0 and kind in BAD_HEADERS:    # (this model reads all hashes first: it would keep the damaged copy's)
+                        kind = "hash_raises"
+                    events = [("d", [order[0]]), ("x", list(order[1:]), pos, kind, order[runs % 3]), ("d", list(order[1:])),
+                              ("L", "none"), ("d", [])]
+                    mode = dict(MODE0, feed=("list", "gen", "peek")[runs % 3], peek0=runs)
+                else:
+                    events = [("d", [order[0]]), ("d", list(order[1:]))]
+                    mode = dict(MODE0, feed=feed, peek0=runs, cbq=True)
+                bad, _ = run_history(factory, anchor, hdrs, events, rec, None, mode)
+                runs += 1
+                if bad:
+                    mechs[bad[0]] = mechs.get(bad[0], 0) + 1
+        assert (not mechs) if expect is None else (set(mechs) == {expect}), ("queries/refusals", broken, feed, mechs)
+        out["%s/%s" % (broken, feed)] = {"histories": runs, "mechanisms": mechs}
     # a tracker that only tells its first listener: invisible with one listener, seen with two
     for ncb, expect in ((1, None), (2, "chain.callback_ops_replay_differs_from_chain")):
         factory = lambda anchor, unlocked_block_storage=None: _ModelChain(anchor, broken="one_listener")
